@@ -12,7 +12,9 @@ Local Open Scope string_scope.
 Inductive lstatus :=
   | Proved (theorem:string)        (* a termination theorem over a model, exported in Properties/C01.v *)
   | ByConstruction (model:string)  (* the model is a structural recursion on its input (total in Coq by construction) *)
-  | NotProved (why:string).        (* named here and in the notes; bounded only by the harness deadline *)
+  | NotProved (why:string)         (* named here and in the notes; bounded only by the harness deadline *)
+  | NotARecursion (why:string)     (* a false positive of the translator's name-based call graph *)
+  | OffCompilePath (why:string).   (* the function cannot be reached from parse.Parser.Parse (Total/ImportRecCurrent.foreign_path_current) *)
 
 Definition parser_loop_status : list (string * string * lkind * lstatus) := [
   ("pkg/grammar", "getNextToken", LFor "ls.spaces != getPreviousIndent(ls.level)", Proved "C01_indent_loop_terminates");
@@ -35,6 +37,31 @@ Definition parser_loop_status : list (string * string * lkind * lstatus) := [
 Lemma loop_sites_parser_current : loop_sites_parser = map (fun r => (fst (fst (fst r)), snd (fst (fst r)), snd (fst r))) parser_loop_status.
 Proof. reflexivity. Qed.
 
-(* the whole table, for the record: its size changes when any compile-path package gains or loses such a site *)
-Lemma loop_sites_count : List.length loop_sites = 47%nat /\ List.length loop_sites_parser = 16%nat.
-Proof. split; reflexivity. Qed.
+(* ---- the importers (pkg/importer): reached from parseSpecs -> importForeign -> importer.Factory(...).Load for the formats
+   OpenAPI3 / OpenAPI2 / Protobuf only (foreign_path_current). What bounds each recursion on a CYCLIC schema graph is a
+   fact of Gen/ImporterRec.v (rec_skeleton_current, refmap_discipline_current). ---- *)
+Definition importer_loop_status : list (string * string * lkind * lstatus) := [
+  ("pkg/importer", "IndentWriter.Write", LRec, NotARecursion "calls the Write of the embedded io.Writer, not itself");
+  ("pkg/importer", "OpenAPI3Importer.buildField", LMutual 2, Proved "C01_swagger_import_terminates: no descent into a property that is a $ref or an array of a $ref; an inline object goes to loadTypeSchema");
+  ("pkg/importer", "OpenAPI3Importer.loadTypeSchema", LMutual 2, Proved "C01_swagger_import_terminates: a $ref is followed (allOf, items named `object`) only after isCircular said no and refMap[ref] = false was set; the deferred setDefined(ref) clears the mark when the frame returns (C01_swagger_marks_restored); refMap is created once");
+  ("pkg/importer", "OpenAPI3Importer.typeNameFromSchemaRef", LRec, Proved "C01_swagger_import_terminates (tn_obj): stops at a $ref into the definitions, else walks down inline `items`; $refs to other places are not modelled (kin-openapi refuses circles of them: observed by stream foreign-cycle)");
+  ("pkg/importer", "exampleAttrStr", LRec, NotProved "recursion on a decoded JSON value (finite tree); the map / slice cases re-enter once with a string; no model");
+  ("pkg/importer", "getAllElements", LRec, OffCompilePath "XSD: walks up the Base chain of a complex type as aqwari.net/xml/xsd resolved it; not proved");
+  ("pkg/importer", "getSyslTypeName", LRec, NotProved "recursion on the Items / Target chain of the importer's Type values, which the importers build without pointer circles; no model");
+  ("pkg/importer", "makeComplexType", LMutual 4, OffCompilePath "XSD: knownTypes.Add(item) BEFORE the children are built and findType before makeType in createChildItem (rec_skeleton_current) stop an element of its own / an enclosing type; not proved");
+  ("pkg/importer", "makeExtendedType", LMutual 4, OffCompilePath "XSD: makeType on the Base of a simpleContent extension; no marker: an extension circle is left to the xsd parser; not proved");
+  ("pkg/importer", "makeSimpleType", LMutual 4, OffCompilePath "XSD: makeType on the Base of a simple type; no marker; not proved");
+  ("pkg/importer", "makeType", LMutual 4, OffCompilePath "XSD: dispatch on the kind of type; see makeComplexType");
+  ("pkg/importer", "mapOpenAPITypeAndFormatToType", LRec, NotProved "one re-entry with the empty format, which every per-type table contains; no model") ].
+
+(* the recursive functions of pkg/importer (a plain `for` there is not pinned) *)
+Definition in_importer (r:string * string * lkind) : bool :=
+  String.eqb (fst (fst r)) "pkg/importer" && match snd r with LFor _ => false | _ => true end.
+Lemma loop_sites_importer_current :
+  filter in_importer loop_sites = map (fun r => (fst (fst (fst r)), snd (fst (fst r)), snd (fst r))) importer_loop_status.
+Proof. reflexivity. Qed.
+
+(* The whole table Gen.LoopSites.loop_sites (all 14 compile-path packages: arr.ai bridge, relmod, ChrootFs, ...) is generated
+   information only - printed into the notes, not pinned: C01 proves nothing about those loops, and a harmless change there
+   must not stop this check. Pinned are the reviewed lists above: the parser proper (loop_sites_parser_current) and the
+   recursive functions of the importers (loop_sites_importer_current). *)
